@@ -99,7 +99,9 @@ class C02(Monitor):
         if tr.post.archived and tr.post.arch:
             retr |= set(tr.post.arch)
         legit = kind in ('clear', 'clearks', 'redec', 'reclone', 'newarch', 'newarchc', 'aclear') or not tr.pre.archived \
-            or (kind == 'arch' and tr.pre.archived != tr.post.archived)     # a toggle that really toggles
+            or (kind == 'arch' and bool(tr.ev[1]) != bool(tr.pre.archived))     # a toggle that asks for the other state
+        # (judged by what was asked, not by what happened: archived(True) on a cache whose archive is on is a no-op, and
+        # keys that become unreachable through it are lost, not legitimately detached)
         if kind in ('newarch', 'newarchc'):
             # the corollary speaks about one lossless archive staying attached: replacing it restarts the at-most-once
             # accounting for everything the new archive does not hold (the per-call clause is still checked)
